@@ -3,13 +3,18 @@ REGISTRY = {
     'C16': {
         'modules': ['contracts.static'], 'level': 'proof',
         'level_text': 'For all Range headers and lengths, and for all request paths / docroots / mount points, the contracts on '
-                      'get_ranges and Static._on_request are discharged on every path of the real functions (loop invariants, no bound); '
-                      'the path-normalisation functions of os.path are trusted uninterpreted functions, so containment is proved '
-                      'without relying on what ".." resolves to.',
-        'level_note': 'trusted: os.path.abspath/join/dirname/exists/isfile/isdir, urllib unquote/quote (uninterpreted, axioms listed in '
-                      'evidence.trusted_base), int(str)/str.strip/str.split axiomatisation; front-end URL sanitising is not assumed.',
-        'explanation': 'contracts on get_ranges / Static._on_request discharged path-wise by z3/cvc5',
-        'not_decided': ['multipart/byteranges generator body of serve_file', 'URL.abspath/escape of the HTTP front-end guard'],
+                      'get_ranges, Static._on_request and serve_file are discharged on every path of the real functions (loop '
+                      'invariants, no bound): every range lies inside the entity AND is exactly the RFC 7233 image of its '
+                      'byte-range-spec (first-last, first-, -suffix), unsatisfiable specs add nothing; serve_file answers a single range '
+                      'with 206, Content-Range bytes a-(b-1)/size, Content-Length b-a and exactly FILE[a:b], no satisfiable range '
+                      'with 416, otherwise the whole file; containment in the docroot is proved with os.path as trusted uninterpreted '
+                      'functions, so it does not rely on what ".." resolves to.',
+        'level_note': 'trusted: os.path.abspath/join/dirname/exists/isfile/isdir, os.stat, open/seek/read, urllib unquote/quote '
+                      '(uninterpreted, axioms listed in evidence.trusted_base), int(str)/str.strip/str.split axiomatisation; front-end '
+                      'URL sanitising is not assumed.',
+        'explanation': 'contracts on get_ranges / Static._on_request / serve_file discharged path-wise by z3/cvc5',
+        'not_decided': ['multipart/byteranges generator body of serve_file (only status and headers of that path)',
+                        'URL.abspath/escape of the HTTP front-end guard'],
     },
     'C18': {
         'modules': ['contracts.line_irc'], 'level': 'proof',
@@ -203,11 +208,14 @@ REGISTRY = {
         'modules': ['contracts.http_server'], 'level': 'proof',
         'level_text': 'PARTIAL: per read and for every parser outcome the HTTP component fires nothing, one close, one httperror, one '
                       'redirect or one request (never error and request together); rejected messages, TLS hellos and disconnects '
-                      'release the per-connection tables; only declared conversion errors can reach the dispatcher. Universality over '
-                      'the byte language of the parser is bounded (see C13).',
-        'level_note': 'parser by its contract (C13); wrappers.Request/Response constructors as summaries; exception -> one 500 response '
-                      'through C04 + _on_exception is argued, not mechanised end to end.',
-        'explanation': 'per-call outcome and clean-up contracts discharged by z3',
+                      'release the per-connection tables; only declared conversion errors can reach the dispatcher, where '
+                      '_on_exception answers a failed read with exactly one httperror carrying a fresh 500 response and _on_httperror '
+                      'turns every httperror into exactly one response; the parser contracts of C13 (stash discipline, chunk '
+                      'completion signalled only by the terminating chunk) are obligations of C14 as well. Universality over the byte '
+                      'language of the grammar functions is bounded (see C13).',
+        'level_note': 'wrappers.Request/Response constructors as summaries; that the dispatcher fires one exception event per raising '
+                      'handler and goes on is C04; bytes of the error response are C15.',
+        'explanation': 'per-call outcome, clean-up, error-path and parser contracts discharged by z3/cvc5',
         'not_decided': ['which byte strings the grammar functions reject (bounded, C13)', 'syntactic validity of the error response (C15 framing)'],
     },
     'C13': {
